@@ -22,8 +22,8 @@ import (
 
 type pkgFiles struct {
 	curIdx string
-	fset  *token.FileSet
-	files map[string]*ast.File // base name -> file
+	fset   *token.FileSet
+	files  map[string]*ast.File // base name -> file
 }
 
 func load(dir string) *pkgFiles {
@@ -684,7 +684,11 @@ func leanStr(s string) string {
 		case r == '\t':
 			b.WriteString(" ")
 		case r < 0x20 || r > 0x7e:
-			fmt.Fprintf(&b, "\\u{%x}", r)
+			if r <= 0xffff {
+				fmt.Fprintf(&b, "\\u%04x", r)
+			} else {
+				b.WriteByte(0x3f)
+			}
 		default:
 			b.WriteRune(r)
 		}
@@ -740,9 +744,18 @@ func main() {
 	repo := flag.String("repo", "/repo", "repository root")
 	skelPath := flag.String("skel", "", "output Lean file for the function skeletons (default: Skel.lean next to -out)")
 	outPath := flag.String("out", "/verif/lean/Girc/Gen/Facts.lean", "output Lean file")
+	locksPath := flag.String("locks", "", "output Lean file for the lock-discipline facts (default: LockFacts.lean next to -out)")
+	locksOnly := flag.Bool("locks-only", false, "write only the lock-discipline facts (-locks) and exit")
 	flag.Parse()
 
 	p := load(*repo)
+	if *locksOnly {
+		if *locksPath == "" {
+			*locksPath = filepath.Join(filepath.Dir(*outPath), "LockFacts.lean")
+		}
+		lockFacts(p, *repo, *locksPath)
+		return
+	}
 	o := &out{}
 	o.pf("/- GENERATED by tools/extract from the Go sources in %s — do not edit.\n   Regenerated on every check run; obligations about these facts live in Girc/Props/*.lean. -/\n", *repo)
 	o.pf("namespace Girc.Gen\n\n")
@@ -808,6 +821,12 @@ func main() {
 		*skelPath = filepath.Join(filepath.Dir(*outPath), "Skel.lean")
 	}
 	writeIfChanged(*skelPath, sk.b.String())
+
+	// lock-discipline facts (C12), in their own module
+	if *locksPath == "" {
+		*locksPath = filepath.Join(filepath.Dir(*outPath), "LockFacts.lean")
+	}
+	lockFacts(p, *repo, *locksPath)
 
 	for _, n := range o.notes {
 		fmt.Fprintln(os.Stderr, "extract: note:", n)
